@@ -11,11 +11,22 @@ from vf.harness.pipeline import Pipe
 from vf.ref import hostlang as hl
 
 KF_CACHE = "future-cache-after-mutation"
-KF_RETREG = "regfuture-measure-not-executed:undefined-or-stale-register"
+KF_RETREG = "regfuture-measure-in-control-flow:undefined-or-foreign-register-value"
 
 
 class Discard(Exception):
     """The reference evaluation itself fails / exceeds its bound: the case is not judged."""
+
+
+def nested_reg_measurements(stmts, inside=False, out=None):
+    """Names of register measurements (measure(store_array=False)) that sit inside a control-flow construct."""
+    out = set() if out is None else out
+    for st in stmts:
+        if st["op"] == "meas" and st["to"]["kind"] == "reg" and inside:
+            out.add(st["to"]["name"])
+        if "body" in st:
+            nested_reg_measurements(st["body"], True, out)
+    return out
 
 
 def reference_run(prog, script, step_bound=4000, templates=None):
@@ -66,6 +77,7 @@ def run_differential(prog, script, fail: Callable[[str, Optional[str]], None], c
     app = pipe.app_id
     first_read = {}
     frozen_regs = {}
+    nested_regs = nested_reg_measurements(prog)
     t0 = 0
     r0 = 0
     segs = hl.segments(prog)
@@ -82,6 +94,8 @@ def run_differential(prog, script, fail: Callable[[str, Optional[str]], None], c
             ok = False
             key = KF_CACHE if (ck in first_read and host == first_read[ck] and host is not None
                                and handle_key[0] != "array") else None
+            if handle_key[0] == "regfuture" and handle_key[1] in nested_regs:
+                key = KF_RETREG
             fail(f"after flush {label}: host reads {handle_key[0]} {handle_key[1:]} = {host} but the controller holds {expected}", key)
 
     try:
@@ -166,7 +180,7 @@ def run_differential(prog, script, fail: Callable[[str, Optional[str]], None], c
                         if cval != snap["regs"].get(name):
                             # a register measurement that was never executed leaves the (recycled) M register with a
                             # stale outcome of an earlier subroutine: same known mechanism as the ret_reg fault
-                            key = KF_RETREG if (snap["regs"].get(name) is None and str(h.reg).startswith("M")) else None
+                            key = KF_RETREG if (str(h.reg).startswith("M") and (snap["regs"].get(name) is None or name in nested_regs)) else None
                             fail(f"segment {si}: controller register {h.reg} (handle {name}) = {cval} but direct execution gives "
                                  f"{snap['regs'].get(name)}", key)
                             return {"ok": False, "ref": ref}
